@@ -275,7 +275,7 @@ def run_scenario(case, *, inspect=None, max_steps=400_000):
             elif kind == "data_cut":
                 effective = peer is not None and any(not t._lost_called and not t._closing for t in peer.data_conns)
             elif kind == "server_close":
-                effective = hasattr(server, "server") and not hasattr(obs, "server_close_task")
+                effective = hasattr(server, "server") and not hasattr(obs, "server_close_task") and obs.phase not in ("closing", "closed")
             obs.faults_fired.append((f.get("at"), kind, f.get("session"), round(world.loop.time(), 9), world.net.seq, world.loop.steps, effective))
             if kind == "vanish":
                 if peer is not None:
@@ -295,7 +295,7 @@ def run_scenario(case, *, inspect=None, max_steps=400_000):
                     for tr in peer.data_conns:
                         tr.abort() if f.get("how", "rst") == "rst" else tr.close()
             elif kind == "server_close":
-                if hasattr(server, "server") and not hasattr(obs, "server_close_task"):  # start() has returned
+                if effective:  # start() has returned and the scenario's own final close has not begun
                     obs.server_close_task = world.loop.create_task(server.close())
                     if f.get("freeze_peers", True):
                         # the peers stay connected but do nothing any more: close() must complete anyway
@@ -376,6 +376,7 @@ def run_scenario(case, *, inspect=None, max_steps=400_000):
                 if asyncio.iscoroutine(r):
                     await r  # e.g. a fresh session that must still be served
             if case.get("final_close", True):
+                obs.phase = "closing"
                 t = getattr(obs, "server_close_task", None)
                 if t is None:
                     t = world.loop.create_task(server.close())
